@@ -320,8 +320,64 @@ def check_from_points_none_iff_empty():
 
 
 # ------------------------------------------------------------------ conditions and bodies
+def inline_helper(env, a, what):
+    """A condition atom that CALLS a function of the same file -- `h(&x, |v| BODY)` or
+    `!h(&x, |v| BODY)` -- is never treated as opaque.  If the body of `h(s, pred)` is exactly a
+    sequential scan of the whole slice, `s.iter().any(|(w, _)| pred(w))`, the call is replaced by
+    that scan with the closure applied (`x.iter().any(|(v, _)| BODY)`; the negated form with a
+    negated BODY becomes `x.iter().all(|(v, _)| BODY')`) and the result is parsed like any other
+    atom.  Anything else fails closed, naming the helper and the part of its body that is not
+    understood.  Returns the rewritten atom, or None when `a` is not a call of a local function."""
+    m = re.fullmatch(r"(!?)(%s)\((.*)\)" % IDENT, a)
+    if not m:
+        return None
+    neg, h, args = m.group(1), m.group(2), m.group(3)
+    src = env.get("__src__")
+    if not isinstance(src, str):
+        return None
+    f = find_fn(src, h)
+    if f is None:
+        return None          # not a function of this file: the caller reports `not recognised`
+    where = "%s: the condition calls the helper `fn %s` of the same file" % (what, h)
+    params = [re.sub(r"^mut\s+", "", q.split(":", 1)[0].strip()) for q in split_params(f[0])]
+    al = split_params(args)
+    if len(params) != 2 or len(al) != 2:
+        raise Fail("%s, which is not of the form h(slice, predicate) -- helper calls in a guard condition are inlined "
+                   "or refused, never assumed to scan every element" % where)
+    ps, pp = params
+    body = nows(f[1])
+    body = re.sub(r"^return(.*);$", r"\1", body)
+    mb = re.fullmatch(r"%s\.iter\(\)\.any\(\|\(?(%s)(?:,_\w*)?\)?\|%s\(&?\1\)\)" % (re.escape(ps), IDENT, re.escape(pp)), body)
+    if not mb:
+        # say which construct stops the inlining
+        culprit = ""
+        for pat, txt in ((r"par_chunks(_exact)?|chunks(_exact)?\(", "it scans fixed-size blocks (a `chunks_exact` family iterator skips the remainder)"),
+                         (r"\bif\b", "it branches (different scans for different input sizes?)"),
+                         (r"\.(skip|take|step_by|rev|windows|split_at|get)\(|\[[^\]]*\.\.[^\]]*\]", "it scans a sub-range of the slice"),
+                         (r"par_iter", "it uses a parallel iterator that is not recognised")):
+            if re.search(pat, body):
+                culprit = ": " + txt
+                break
+        raise Fail("%s, whose body is not the plain whole-slice scan `%s.iter().any(|(w, _)| %s(w))`%s; the helper is not "
+                   "inlined and the guard is NOT assumed to look at every element [body: %s]"
+                   % (where, ps, pp, culprit, body[:160]))
+    ma = re.fullmatch(r"&?(%s)" % IDENT, al[0])
+    mc = re.fullmatch(r"\|&?(%s)\|(.*)" % IDENT, al[1])
+    if not ma or not mc:
+        raise Fail("%s with arguments `%s` that are not (slice, |v| predicate)" % (where, args[:80]))
+    x, v, pb = ma.group(1), mc.group(1), mc.group(2)
+    if not neg:
+        return "%s.iter().any(|(%s,_)|%s)" % (x, v, pb)
+    if pb.startswith("!"):
+        return "%s.iter().all(|(%s,_)|%s)" % (x, v, pb[1:])
+    raise Fail("%s negated around a predicate that is not itself a negation: `%s`" % (where, a[:80]))
+
+
 def parse_atom(env, a, what):
     """One disjunct of an `if` condition (whitespace-free).  Returns (kind, payload)."""
+    inl = inline_helper(env, a, what)
+    if inl is not None:
+        return parse_atom(env, inl, what + " (helper inlined)")
     m = re.fullmatch(r"(%s\.len\(\))!=(%s\.len\(\))" % (IDENT, IDENT), a)
     if m:
         return ("lenneq", (m.group(1), m.group(2)))
@@ -422,7 +478,7 @@ def walk(src, params, body, args_roles, consts, what, depth=0):
     """Returns the list of Coq guard terms of this function (ending in GCompute)."""
     if depth > 4:
         raise Fail("%s: call chain too deep" % what)
-    env = {}
+    env = {"__src__": src}     # (not an identifier: only inline_helper reads it)
     names = []
     for p in split_params(params):
         if p in ("&mut self", "&self", "self", "mut self"):
@@ -613,7 +669,7 @@ PROP = dict(
     bin="c20",
     run_targets=["Run/RunC20.vo"],
     prop_targets=["Properties/C20.vo"],
-    cases=dict(quick=3300, thorough=33000),
+    cases=dict(quick=3630, thorough=36300),
     level="proof",
     rule="case idx calls entry point idx % 11 (Rcb, Rib, Greedy, KarmarkarKarp, CompleteKarmarkarKarp, VnBest, VnFirst, "
          "FiducciaMattheyses, ArcSwap, HilbertCurve 2-D / 3-D) through coupe::Partition::partition; idx / 11 enumerates every "
@@ -621,7 +677,12 @@ PROP = dict(
          "then well-formed slots that enumerate every position j < n <= 8 of an id above one (FM) / of a negative weight "
          "(VnBest, i64 and f64), orders max+1, above max, huge, u32::MAX and valid (HilbertCurve), an id equal to usize::MAX "
          "(VnBest, VnFirst, ArcSwap), degenerate parameters (iter_count 0/1/2, part_count 0/1/2/3/5, order 0..max, tolerances 0 and "
-         "negative, max_imbalance None/0, max_passes 0) and well-formed controls; arrays pre-filled with recognisable garbage; distinct = distinct "
+         "negative, max_imbalance None/0, max_passes 0) and well-formed controls; one slot in eleven is a LARGE call (4095..10000 "
+         "elements, lengths around the multiples of 1024 and 4096) with exactly one offending element -- a negative weight (VnBest), an "
+         "id above one (FM), one length off by one / rounded to a block / empty (the nine algorithms), an order above the maximum "
+         "(HilbertCurve) -- at the last position, in the trailing len % 1024 positions, at the block seams (1023, 1024, 4095, 4096, last "
+         "full block) or anywhere, written compactly (run-length encoded lists + the positions where the array changed) and rebuilt "
+         "by Run/RunC20.v big20; arrays pre-filled with recognisable garbage; distinct = distinct "
          "(entry point, array, weight signs, lengths, part_count, order); non-trivial = some clause of the property applies "
          "(a length differs, an id above one for FM, a negative weight for VnBest, an order above the maximum)",
     class_names={0: "model: InputLenMismatch", 1: "model: BiPartitioningOnly", 2: "model: NegativeValues",
@@ -658,7 +719,7 @@ MANIFEST = dict(
          "when a clause applies, anything but a promised error with the array untouched is a rejection.",
     design_ref="DESIGN.md §7 C20",
     note="Trusted: Coq kernel; the guard-list translator (fails closed on unrecognised early exits); statements not mentioning the "
-         "partition are assumed not to write it; differential runs (3.3k/33k calls, public API, catch_unwind + watchdog). "
+         "partition are assumed not to write it; differential runs (3.6k/36k calls, incl. calls on up to 10000 elements, public API, catch_unwind + watchdog). "
          "VnBest/VnFirst theorems assume no id equals usize::MAX. No axioms.",
     technique="Coq proof (reflective static analysis of guard lists, proved sound for the guard interpreter) + source-order translator "
               "+ model/implementation correspondence + checker",
